@@ -789,9 +789,18 @@ namespace randomx {
 			state.emit(rvi(rv64::SUB, regR(isn.dst), regR(isn.dst), regR(isn.src)));
 		}
 		else {
-			int32_t imm = unsigned32ToSigned2sCompl(-isn.getImm32()); //convert to add
-			//x{dst} = x{dst} + {-imm}
-			emitImm32(state, imm, regR(isn.dst), regR(isn.dst), Tmp1Reg);
+			int64_t neg = -(int64_t)unsigned32ToSigned2sCompl(isn.getImm32()); //convert to add
+			if (neg >= INT32_MIN && neg <= INT32_MAX) {
+				//x{dst} = x{dst} + {-imm}
+				emitImm32(state, (int32_t)neg, regR(isn.dst), regR(isn.dst), Tmp1Reg);
+			}
+			else {
+				//-imm does not fit into 32 bits (imm32 = 0x80000000): subtract the sign-extended immediate
+				//x8 = {imm}
+				emitImm32(state, unsigned32ToSigned2sCompl(isn.getImm32()), Tmp1Reg);
+				//sub x{dst}, x{dst}, x8
+				state.emit(rvi(rv64::SUB, regR(isn.dst), regR(isn.dst), Tmp1Reg));
+			}
 		}
 	}
 
